@@ -201,12 +201,18 @@ func HandleSendInstantMsg(cc *hotline.ClientConn, t *hotline.Transaction) (res [
 
 var fileTypeFLDR = [4]byte{0x66, 0x6c, 0x64, 0x72}
 
+// isFileRoot reports whether fullPath is the client's file root itself.  The root is not an entry inside the file root:
+// its info/resource fork files and partial data would live next to it, outside the tree the client may touch.
+func isFileRoot(cc *hotline.ClientConn, fullPath string) bool {
+	return filepath.Clean(fullPath) == filepath.Clean(cc.FileRoot())
+}
+
 func HandleGetFileInfo(cc *hotline.ClientConn, t *hotline.Transaction) (res []hotline.Transaction) {
 	fileName := t.GetField(hotline.FieldFileName).Data
 	filePath := t.GetField(hotline.FieldFilePath).Data
 
 	fullFilePath, err := hotline.ReadPath(cc.FileRoot(), filePath, fileName)
-	if err != nil {
+	if err != nil || isFileRoot(cc, fullFilePath) {
 		return res
 	}
 
@@ -255,7 +261,7 @@ func HandleSetFileInfo(cc *hotline.ClientConn, t *hotline.Transaction) (res []ho
 	filePath := t.GetField(hotline.FieldFilePath).Data
 
 	fullFilePath, err := hotline.ReadPath(cc.FileRoot(), filePath, fileName)
-	if err != nil {
+	if err != nil || isFileRoot(cc, fullFilePath) {
 		return res
 	}
 
@@ -347,7 +353,7 @@ func HandleDeleteFile(cc *hotline.ClientConn, t *hotline.Transaction) (res []hot
 	filePath := t.GetField(hotline.FieldFilePath).Data
 
 	fullFilePath, err := hotline.ReadPath(cc.FileRoot(), filePath, fileName)
-	if err != nil {
+	if err != nil || isFileRoot(cc, fullFilePath) {
 		return res
 	}
 
